@@ -125,6 +125,36 @@ def run(res, tier, replay):
         if not check_case(res, t, c, sc, label): nbad += 1
     res.oblige("archive level: %d generated cabinets / sets list and extract exactly (C, ASan+UBSan)" % len(cs), nbad == 0)
     res.traces += len(cs)
+    # ---- whole-file model of cabd.c (Model/Cab.v: open + extract sessions, every DECOMPBUF / SALVAGE / FIXMSZIP) vs the C library
+    from props import cablib
+    ok2, log2, mexe = vlib.build_model_drv()
+    cases = []
+    for i in range(30 if tier == "quick" else 500):
+        c = gen.cab_single(rng, big=(i % 3 == 0)); cab = list(c.files.values())[0]; nm = len(c.members)
+        ops = [rng.randrange(nm + 1) for _ in range(rng.randrange(1, 6))] if rng.random() < 0.6 else list(range(nm))
+        par = (rng.random() < 0.3, rng.random() < 0.2, rng.choice([4, 5, 7, 64, 4096, 65536]))
+        cases.append((cab,) + par + (ops,))
+        for _ in range(2): cases.append((cablib.damage(rng, cab),) + par + (ops,))
+    rc, mo, err = vlib.run_lines(mexe, ["cab"], [cablib.model_line(*c) for c in cases], timeout=3000)
+    ctr = scenario.run_scenarios(iexe, [cablib.scn_for(*c) for c in cases])
+    cdiffs = []; unm = 0
+    for c, m, t in zip(cases, mo, ctr):
+        res.evaluations += 1
+        if t.crash or t.hang: continue
+        cc = cablib.c_canonical(t)
+        if "#X 98" in m:
+            unm += 1; k = m.index("#X 98")
+            if cc[:k] != m[:k]: cdiffs.append((c, m, cc))
+            continue
+        if cc != m: cdiffs.append((c, m, cc))
+    res.count("cabmodel-unmodelled", unm)
+    res.oblige("correspondence: model of cabd.c (open, extract sessions through the decoder ports and the buffered interpreter) = C library on %d cabinets (1/3 intact, 2/3 damaged)" % len(cases),
+               not cdiffs and len(mo) == len(cases), "%d differ %s" % (len(cdiffs), err[-200:]) if cdiffs or len(mo) != len(cases) else "")
+    if cdiffs:
+        for c, m, cc in cdiffs[:2]:
+            a = cc.replace("#", ";").split(";"); b = m.replace("#", ";").split(";")
+            k = next((i for i in range(min(len(a), len(b))) if a[i] != b[i]), min(len(a), len(b)))
+            res.violation("model of cabd.c and the C library disagree (record %d: C %s | model %s)" % (k, (a[k] if k < len(a) else "-")[:120], (b[k] if k < len(b) else "-")[:120]), cablib.scn_for(*c).text(), found_input=False)
     if not proofs_ok or alld:
         def s():
             for eng, bs, case, mo, io in alld[:2]:
